@@ -216,6 +216,8 @@ var small = [][]string{
 	{"a.com/", "a.com/x", "{h}.com/x", "/x", "a.co/x", "a.com/{p}", "/x/"},
 	{"/{a}/b", "/{a}/b/", "/{a}/{b}", "/x/b", "/{a}/*{c}", "/{a}/b{z}", "/x/"},
 	{"/u/id:{a}", "/u/id:{a}/c", "/u/{b}", "/u/i", "/u/*{w}/c", "/u/", "/u"},
+	{"/a/*{x}/b/*{y}/c/foo", "/a/*{x}/b/*{y}/c/bar", "/a/*{x}/b/*{y}/c/foo/baz", "/a/*{x}/b/*{y}/c/", "/a/*{x}/b", "/a/*{x}/b/*{y}/d", "/a/q"},
+	{"h.com/x", "h.com.au/x", "h.com/xy", "h.com.au/", "h.co/x", "{s}.com/x", "/x"},
 }
 
 // perms enumerates every insertion order of every subset of <= 5 routes of the small pools.
